@@ -625,7 +625,7 @@ def node(w, hist, cfg, res):
 
 # ------------------------------------------------- wrapper storages
 
-WRAPPERS = ('DMF', 'DFM', 'DMM', 'BF', 'BM')
+WRAPPERS = ('DMF', 'DFM', 'DMM', 'BF', 'BM', 'VF', 'VM')
 
 
 def mk_wrapper(kind, d):
@@ -643,6 +643,13 @@ def mk_wrapper(kind, d):
         return BS(os.path.join(d, 'blobs'), FS(os.path.join(d, 'D.fs')))
     if kind == 'BM':
         return BS(os.path.join(d, 'blobs'), MS('m'))
+    if kind in ('VF', 'VM'):
+        # what a connection talks to: an instance of the MVCC adapter
+        MVCC = env.mod('ZODB.mvccadapter').MVCCAdapter
+        inner = FS(os.path.join(d, 'V.fs')) if kind == 'VF' else MS('v')
+        inst = MVCC(inner).new_instance()
+        inst.poll_invalidations()
+        return inst
     raise ValueError(kind)
 
 
@@ -656,7 +663,9 @@ def wrapper_victims(kind):
     for f in ('user', 'desc', 'ext'):
         vs.append(('longmeta', f))
     vs.append(('conflict',))
-    vs.append(('finish-callback',))
+    vs.append(('finish-callback', False))
+    if blob:
+        vs.append(('finish-callback', True))
     for when in ('idle', 'store', 'vote'):
         vs.append(('stray', when, False))
         if blob and when != 'idle':
@@ -706,6 +715,8 @@ def wrapper_scenario(kind, v):
 
     def observe():
         out = {}
+        if kind[0] == 'V':
+            s.poll_invalidations()      # a transaction boundary
         for o in (1, 2, 3, 7, 8):
             r = call(s.load, p64(o))
             out[('load', o)] = r
@@ -774,6 +785,9 @@ def wrapper_scenario(kind, v):
             elif kindv == 'finish-callback':
                 s.tpc_begin(t)
                 s.store(p64(7), Z64, hclasses.mkrec('P', 7), '', t)
+                if v[1]:
+                    s.storeBlob(p64(8), Z64, hclasses.mkrec('P', 8),
+                                blobfile(8), '', t)
                 s.tpc_vote(t)
 
                 def boom(tid):
@@ -802,6 +816,18 @@ def wrapper_scenario(kind, v):
                                     t)
                     if when == 'vote':
                         s.tpc_vote(t)
+                for nm, f in (
+                        ('store', lambda: s.store(p64(9), Z64,
+                                                  hclasses.mkrec('P', 9),
+                                                  '', other)),
+                        ('tpc_vote', lambda: s.tpc_vote(other)),
+                        ('tpc_finish', lambda: s.tpc_finish(other))):
+                    r = call(f)
+                    if not (isinstance(r, Exc) and r.name ==
+                            'StorageTransactionError'):
+                        bad('wrongtxn', 'stray-%s:%s' % (
+                            nm, r.name if isinstance(r, Exc)
+                            else 'accepted'), dict(got=repr(r)[:100]))
                 r = call(s.tpc_abort, other)
                 if isinstance(r, Exc):
                     bad('wrongtxn', 'stray-abort:%s' % r.name,
@@ -809,6 +835,8 @@ def wrapper_scenario(kind, v):
                 if when != 'idle':
                     # the real transaction goes on and must be complete
                     if when != 'vote':
+                        s.store(p64(3), Z64, hclasses.mkrec('P', 33), '', t)
+                        items.append((p64(3), Z64, 33, False))
                         s.tpc_vote(t)
                     s.tpc_finish(t)
                     post = observe()
@@ -846,13 +874,17 @@ def wrapper_scenario(kind, v):
                      after=repr(post.get(q[0]))[:200]))
         # the next transaction commits
         try:
-            r = call(commit, [(p64(3), Z64, 3, False)])
+            r3 = call(s.load, p64(3))
+            r = call(commit, [(p64(3), Z64 if isinstance(r3, Exc)
+                               else r3[1], 3, False)])
         except sched.DeadlockError as e:
             bad('deadlock', 'next', dict(error=str(e)))
             return label, viol
         if isinstance(r, Exc):
             bad('next', 'commit:%s' % r.name, dict(got=repr(r)))
         else:
+            if kind[0] == 'V':
+                s.poll_invalidations()
             r2 = call(s.load, p64(3))
             if isinstance(r2, Exc) or r2[0] != hclasses.mkrec('P', 3):
                 bad('next', 'load', dict(got=repr(r2)[:100]))
@@ -914,8 +946,8 @@ def run(rep, tier, seed, workers):
         'sorted before / after the connection; wrong-transaction calls while '
         'idle / after store / after vote; the abort / over-long metadata / '
         'conflict / stray tpc_abort victims also on three demo storage '
-        'layerings and the blob wrapper over a file and a mapping storage, '
-        'with blob stores): rebuild h on the real storage, run '
+        'layerings, the blob wrapper over a file and a mapping storage (with '
+        'blob stores) and an MVCC adapter instance over both: rebuild h on the real storage, run '
         'the victim, compare files and battery with the snapshot taken '
         'before it, commit a follow-up, reopen; evaluations = (h, victim) '
         'pairs; every pair is non-trivial')
